@@ -60,6 +60,50 @@ def run(seed=0):
     ok("slicing clamps", "abc"[:10] == "abc" and "abc"[5:] == "" and "abc"[-10:2] == "ab" and "abc"[2:1] == "")
     ok("True == 1 and hash(True) == hash(1) (bool/int key coincidence)", True == 1 and hash(True) == hash(1) and {1: "a", True: "b"} == {1: "b"})
     ok("str * n: length n*len for n>0 else empty", "\n" * 3 == "\n\n\n" and "ab" * 0 == "" and "ab" * -1 == "")
+
+    # ---- lemmas of sequences / paths assumed by the second batch of contracts (C05, C16, C17) ---------------------------------------------------
+    def rm_lemma():
+        for _ in range(300):
+            L = [rng.randrange(5) for _ in range(rng.randrange(0, 7))]
+            if not L:
+                continue
+            e = rng.choice(L)
+            L2 = list(L)
+            L2.remove(e)
+            i = L.index(e)
+            if L2 != L[:i] + L[i + 1:] or any((q in L2) != (q in L) for q in range(6) if q != e):
+                return False
+        return True
+
+    ok("list.remove(e): drops the first occurrence; membership of every other value unchanged; ValueError when absent", rm_lemma() and raises(lambda: [1, 2].remove(3), ValueError))
+    ok("the element at a valid index is a member", all(L[i] in L for L in ([1], [3, 3, 4], list("abc")) for i in range(len(L))))
+    ok("x[:] = [] empties the same list object", (lambda L: (L.__setitem__(slice(None), []), L == [])[1])([1, 2, 3]))
+    import os.path
+    import posixpath
+
+    names = ["a", "b c", "ab", "a.b", "é", "x-1"]
+
+    def seg(P, x):
+        assert x.startswith(P + "/")
+        return x[len(P) + 1:].split("/", 1)[0]
+
+    def under(p, q):
+        return q == p or q.startswith(p + "/")
+
+    ok("seg: first segment of P/a and of anything below P/a is a (entry names without '/')",
+       all(seg(P, P + "/" + a) == a and seg(P, P + "/" + a + "/" + t) == a for P in ("/d", "/d/e", "") for a in names for t in ("x", "y/z", "")))
+    ok("two different entry names have no common descendant path", all(not (under(P + "/" + a, x) and under(P + "/" + b, x)) for P in ("/d", "/d/a") for a in names for b in names if a != b
+                                                                       for x in [P + "/" + a, P + "/" + a + "/k", P + "/" + b + "/" + a, P + "/" + a + b]))
+    ok("posixpath.join(a, b) == a + '/' + b for a without trailing '/' and relative b", all(posixpath.join(a, b) == a + "/" + b for a in ("/x", "/x/y", "rel") for b in names + ["s/t"]))
+    rp = posixpath.relpath
+    ok("relpath: inside start -> the remainder; start itself -> '.'; outside -> '..' or '../...'",
+       all(rp(st + "/" + r, st) == r for st in ("/s", "/s/t") for r in ("a", "a/b", "é/x y")) and rp("/s", "/s") == "." and all(rp(p, "/s/t") == ".." or rp(p, "/s/t").startswith("../") for p in ("/s", "/q", "/s/u/v", "/")))
+    here = os.getcwd()
+    ok("relpath: a relative path is taken from the working directory", all(rp(r, "/s") == rp(posixpath.join(here, r), "/s") for r in ("a", "a/b", "é")))
+    ok("mode | 0o700 == mode + (7 - ((mode % 512) // 64)) * 64; mode // 4096 is the file type; mode % 4096 the permission bits",
+       all((m | 0o700) == m + (7 - ((m % 512) // 64)) * 64 for m in list(range(0, 0o1000, 7)) + [0o100644, 0o40755, 0o120777, 0o100000]) and 0o100644 // 4096 == 8 and 0o40755 // 4096 == 4 and 0o120777 // 4096 == 10)
+    ok("inspect.signature(f).parameters lists the same names, in order, as getfullargspec(f).args for positional parameters",
+       (lambda f: list(__import__("inspect").signature(f).parameters)[:2] == __import__("inspect").getfullargspec(f).args)(lambda channel, x: None))
     return res
 
 
